@@ -502,6 +502,14 @@ func (e *Engine) resolveFuncTypeKeys() error {
 			}
 			c.Like[i] = nl
 		}
+		// callsite clauses may name a function type: calls through values of that type
+		for _, cs := range c.CallSites {
+			nk, err := canon(cs.Callee, cs.Clause.Where)
+			if err != nil {
+				return err
+			}
+			cs.Callee = nk
+		}
 	}
 	return nil
 }
